@@ -85,6 +85,18 @@ def eq_oracle(k1, a, k2, b):
     return K.oracle("equals", (b1, b2), [a, b])["value"]
 
 
+# `?=` binds its target through Ctx::register_variable (nearest binding within the function, since fix b1486bc; which binding that
+# is, is decided by C07's scope kernel) - older trees called register_variable_local; both are recorded effects here
+STORE_EFFECTS = ("register_variable_local", "register_variable")
+
+
+def _plain_name(v):
+    """the name argument is a String or a Cow::Owned(String)"""
+    while getattr(v, "variant", None) in ("Owned", "Borrowed") and getattr(v, "fields", None):
+        v = v.fields[0]
+    return v
+
+
 def main():
     ap = argparse.ArgumentParser()
     ap.add_argument("--tier", default=os.environ.get("VERIF_TIER", "quick"))
@@ -241,7 +253,7 @@ def check_outcome(ins, k, payload, o, iargs):
             out.append(("assign-unwrap-flag", T, "`?=` leaves %r" % (st,)))
             return out
         out.append(("assign-unwrap-flag", st[0].fields[0].e != z3.BoolVal(present), "`?=` is true although nil / false although present"))
-        regs = [e for e in o.effects if e[0] == "register_variable_local"]
+        regs = [(e[0], (_plain_name(e[1][0]),) + tuple(e[1][1:])) for e in o.effects if e[0] in STORE_EFFECTS]
         if len(regs) != 1:
             out.append(("assign-unwrap-store", T, "`?=` does not store exactly one value (stores: %d)" % len(regs)))
             return out
@@ -308,12 +320,12 @@ def predict(ok_, ins, iargs, kinds, vals, existing=False):
             parts = ["STACK"] + [show(o.cells, p, subs) for p in stack_of(o)]
             stored = ["STORE", iargs[0], "Int:7"] if existing else []     # what the variable holds afterwards (the harness reads it back)
             for e in o.effects:
-                if e[0] == "register_variable_local":
-                    stored = ["STORE", e[1][0].data.strip('"'), show(o.cells, e[1][1], subs)]
+                if e[0] in STORE_EFFECTS:
+                    stored = ["STORE", _plain_name(e[1][0]).data.strip('"'), show(o.cells, e[1][1], subs)]
             if ins == "unwrap_into":
                 parts += stored
             for e in o.effects:
-                if e[0] == "register_variable_local":
+                if e[0] in STORE_EFFECTS:
                     continue
                 elif e[0] == "signal":
                     v = e[1][0]
